@@ -138,6 +138,13 @@ class _Node(nn.Module):
       elif k == 'reuse':
         if children:
           x = children[op['i'] % len(children)](x)
+      elif k == 'nested':
+        # a functional init/apply of an unrelated module from inside this
+        # module's method; how many collections it returns feeds the output
+        inner = make_module(op['prog'], self.dim, parent=None)
+        v = inner.init(jax.random.key(7), x)
+        y, upd = inner.apply(v, x, mutable=True)
+        x = y + 0.03125 * len(jax.tree_util.tree_leaves(upd))
       elif k == 'shared':
         sh = self.all_shared()
         if sh:
@@ -515,6 +522,15 @@ def op_strategy(inner, allow, style):
         lambda s: {'op': 'rng', 'stream': s}))
   if 'tanh' in allow:
     opts.append(st.just({'op': 'tanh'}))
+  if 'nested' in allow and style == 'compact':
+    opts.append(st.lists(st.sampled_from([
+        {'op': 'dense', 'name': None, 'attr': 'attr'}, {'op': 'tanh'},
+        {'op': 'counter', 'col': 'counters', 'name': 'n'},
+        {'op': 'sow', 'col': 'aux', 'name': 's0'}]), min_size=1,
+                         max_size=3).map(lambda ops: {
+                             'op': 'nested', 'prog': dedupe_names({
+                                 'style': 'compact', 'cls': 'B',
+                                 'ops': [dict(o) for o in ops]})}))
   if inner is not None:
     opts.append(st.tuples(inner, name, st.integers(1, 3), attr).map(
         lambda t: {'op': 'sub', 'prog': t[0], 'name': t[1], 'calls': t[2],
